@@ -24,14 +24,20 @@ impl VHDLFormatter<'_> {
         if let Some(item) = configuration.context_clause.last() {
             self.line_break_preserve_whitespace(item.span().end_token, buffer);
         }
-        // configuration cfg of entity_name is
+        // configuration cfg of
         self.format_token_span(
             TokenSpan::new(
                 configuration.span.start_token,
-                configuration.span.start_token + 4,
+                configuration.span.start_token + 2,
             ),
             buffer,
         );
+        buffer.push_whitespace();
+        // The entity name may be a selected name, e.g., `lib.entity_name`
+        self.format_name(configuration.entity_name.as_ref(), buffer);
+        buffer.push_whitespace();
+        // is
+        self.format_token_id(configuration.entity_name.span.end_token + 1, buffer);
         indented!(buffer, {
             self.format_declarations(&configuration.decl, buffer);
             self.format_v_unit_binding_indications(&configuration.vunit_bind_inds, buffer);
@@ -339,6 +345,17 @@ configuration cfg of entity_name is
         end for;
     end for;
 end configuration cfg;",
+        );
+    }
+
+    #[test]
+    fn check_configuration_of_selected_entity_name() {
+        check_design_unit_formatted(
+            "\
+configuration cfg of lib.entity_name is
+    for rtl
+    end for;
+end;",
         );
     }
 
